@@ -206,10 +206,20 @@ def correspondence(ctx):
                 if ctx.tier == 'quick' and rng.random() < 0.6:
                     continue
                 cases.append({'assertion': name, 'left': i, 'right': j, 'wl': False, 'wr': False})
-    # the other three wrappings on sampled pairs
+    # the other three wrappings: for every assertion and every ordered pair of operand KINDS (int, float, bool, str, list, tuple,
+    # dict, set, None, ...) at least two value pairs, plus random pairs
+    by_kind = {}
+    for i, v in enumerate(VALUES):
+        by_kind.setdefault(type(v).__name__, []).append(i)
+    kinds = sorted(by_kind)
     for name in BIN:
-        for _ in range(60 if ctx.tier == 'quick' else 400):
-            i, j = rng.randrange(n), rng.randrange(n)
+        pairs = []
+        for ka in kinds:
+            for kb in kinds:
+                for _ in range(2 if ctx.tier == 'quick' else 5):
+                    pairs.append((rng.choice(by_kind[ka]), rng.choice(by_kind[kb])))
+        pairs += [(rng.randrange(n), rng.randrange(n)) for _ in range(60 if ctx.tier == 'quick' else 400)]
+        for i, j in sorted(set(pairs)):
             for wl, wr in ((True, False), (False, True), (True, True)):
                 cases.append({'assertion': name, 'left': i, 'right': j, 'wl': wl, 'wr': wr})
     for name in UN:
